@@ -102,14 +102,11 @@ def locate(rounds, hwm):
     return len(rounds) - 1, 0
 
 
-def client_side(ctx, thorough):
+def client_side(ctx, thorough, client_gen):
     """4. the client-side service: behaviours of Service.tla (ClientSide = TRUE) on a real service reference."""
     tests = ctx.path("c16-client-tests.ndjson")
-    g = ctx.tlc("GenService", "GenService_client_thorough.cfg" if thorough else "GenService_client.cfg", workers=1,
-                count=False, timeout=3000, env={"SEL": str(ctx.seed % 10)})
+    g, g2 = client_gen[0].result(), client_gen[1].result()
     nt = export(g, "CT", tests)
-    g2 = ctx.tlc("GenService", "GenService_client_seq_thorough.cfg" if thorough else "GenService_client_seq.cfg",
-                 workers=1, count=False, timeout=3000)
     n = nt + export(g2, "CS", tests, "a")
     if nt < 10000 or n - nt < 3000:
         raise Infra("client behaviour export too small: %d + %d" % (nt, n - nt))
@@ -181,9 +178,10 @@ def client_side(ctx, thorough):
                 muts.append(("never", [x for x in h if x["k"] != "onterminate"]))
             if len(muts) == 2:
                 break
-        for name, m in muts:
-            bad, r = validate(ctx, [[json.dumps(x) + "\n" for x in m]], "c16-client-trace-selftest-" + name,
-                              "TraceService_client.cfg")
+        with ThreadPoolExecutor(max_workers=2) as ex:
+            outs = list(ex.map(lambda nm: validate(ctx, [[json.dumps(x) + "\n" for x in nm[1]]],
+                                                   "c16-client-trace-selftest-" + nm[0], "TraceService_client.cfg"), muts))
+        for (name, m), (bad, r) in zip(muts, outs):
             if bad is None:
                 raise Infra("client trace self-test: corrupted trace (%s) accepted by TraceService" % name)
         if len(muts) < 2:
@@ -231,15 +229,11 @@ def run(ctx):
     def phase(name):
         phases[name] = round(time.time() - t0[0], 1)
         t0[0] = time.time()
-    # 1. design
-    ctx.design_check("Service", "MCService_thorough.cfg" if thorough else "MCService.cfg",
-                     workers=10 if thorough else 6, timeout=3000, coverage=thorough)
-    ctx.design_check("Service", "MCService_client_thorough.cfg" if thorough else "MCService_client.cfg",
-                     workers=4, timeout=3000, coverage=thorough)
-    ctx.design_check("ServiceRace", "MCServiceRace_thorough.cfg" if thorough else "MCServiceRace.cfg",
-                     workers=6, timeout=3000)
-    ctx.design_check("ServiceRace", "MCServiceRace_client_thorough.cfg" if thorough else "MCServiceRace_client.cfg",
-                     workers=6, timeout=3000)
+    # 1. design (independent TLC runs, a few at a time)
+    def design_run(job):
+        module, cfg, workers = job
+        return ctx.design_check(module, cfg, workers=workers, timeout=3000, count=False,
+                                coverage=thorough and module == "Service")
 
     def dev_run(job):
         module, cfg, inv, label = job
@@ -247,13 +241,33 @@ def run(ctx):
         if inv not in r.violated:
             raise Infra("%s with %s should violate %s, got %s" % (module, label, inv, r.violated))
         return label, inv
+    designs = [("Service", "MCService_thorough.cfg" if thorough else "MCService.cfg", 8 if thorough else 4),
+               ("Service", "MCService_client_thorough.cfg" if thorough else "MCService_client.cfg", 3),
+               ("ServiceRace", "MCServiceRace_thorough.cfg" if thorough else "MCServiceRace.cfg", 6 if thorough else 3),
+               ("ServiceRace", "MCServiceRace_client.cfg", 3)]
+    if thorough:
+        designs.append(("ServiceRace", "MCServiceRace_client_thorough.cfg", 4))
     jobs = [("Service", "MCService_dev_%s.cfg" % d, inv, "Dev_" + d) for d, inv in DEVS.items()]
     jobs += [("ServiceRace", "MCServiceRace_%s.cfg" % d, inv, d) for d, inv in RACES.items()]
-    with ThreadPoolExecutor(max_workers=4) as ex:
-        done = list(ex.map(dev_run, jobs))
+    with ThreadPoolExecutor(max_workers=5) as ex:
+        f1 = [ex.submit(design_run, j) for j in designs]
+        f2 = [ex.submit(dev_run, j) for j in jobs]
+        for f in f1:
+            r = f.result()
+            ctx.states += r.distinct
+            ctx.transitions += r.generated
+        done = [f.result() for f in f2]
     ctx.extra["deviation_models"] = {l: i for l, i in done if l.startswith("Dev_")}
     ctx.extra["race_renderings_broken"] = {l: i for l, i in done if not l.startswith("Dev_")}
     phase("design")
+
+    # the client-side exports run while the server behaviours are replayed
+    bg = ThreadPoolExecutor(max_workers=2)
+    client_gen = [
+        bg.submit(ctx.tlc, "GenService", "GenService_client_thorough.cfg" if thorough else "GenService_client.cfg",
+                  workers=1, count=False, timeout=3000, env={"SEL": str(ctx.seed % 2)}),
+        bg.submit(ctx.tlc, "GenService", "GenService_client_seq_thorough.cfg" if thorough else "GenService_client_seq.cfg",
+                  workers=1, count=False, timeout=3000)]
 
     # 2. behaviours
     tests = ctx.path("c16-tests.ndjson")
@@ -350,8 +364,10 @@ def run(ctx):
                 muts.append(("never", m))                       # the hook never runs
             if len(muts) == 3:
                 break
-        for name, m in muts:
-            bad, r = validate(ctx, [[json.dumps(x) + "\n" for x in m]], "c16-trace-selftest-" + name)
+        with ThreadPoolExecutor(max_workers=3) as ex:
+            outs = list(ex.map(lambda nm: validate(ctx, [[json.dumps(x) + "\n" for x in nm[1]]],
+                                                   "c16-trace-selftest-" + nm[0]), muts))
+        for (name, m), (bad, r) in zip(muts, outs):
             if bad is None:
                 raise Infra("trace self-test: corrupted trace (%s) accepted by TraceService" % name)
         if len(muts) < 3:
@@ -361,7 +377,8 @@ def run(ctx):
         raise Infra("no trace was validated")
 
     phase("concurrent+trace")
-    client_side(ctx, thorough)
+    client_side(ctx, thorough, client_gen)
+    bg.shutdown()
     phase("client")
 
     ctx.extra["explanation"] = (
